@@ -18,6 +18,7 @@ for the empty line:
                                        `Circuit::exportIspd(prefix)` writes
   readbackfs <eprefix>              -> `Text.readIspd (exportFS prefix c) exists (prefix.aux)`, printed as `readback`;
                                        the result becomes the "Python circuit" of the placement ops below
+  readfs exists|missing|dir <eprefix> <efilename> <eentry>*   -> `Text.readIspd (exportFS prefix c) kind filename`
   fsreset / file <epath> / l <eline>   (a file system: start a file, append a line to the last file)
   readispd exists|missing|dir <efilename> <eentry>*   -> `Text.readIspd fs kind filename`, printed as `readback`
   writeplacement                    -> `sol <eline>` for every line of `write_placement` on the Python circuit
@@ -124,6 +125,10 @@ def step (s : St) (ws : List String) : St × List String :=
         tagged "nets" (Text.netsText s.c) ++ tagged "scl" (Text.sclText s.c))
   | ["readbackfs", pre] =>
     let r := Text.readIspd (Text.exportFS (un pre) s.c) .exists_ (un pre ++ ".aux".toList)
+    ({ s with py := r }, showRead r)
+  | "readfs" :: kind :: pre :: fname :: entries =>
+    let k : Text.PathKind := if kind = "dir" then .dir (entries.map un) else if kind = "missing" then .missing else .exists_
+    let r := Text.readIspd (Text.exportFS (un pre) s.c) k (un fname)
     ({ s with py := r }, showRead r)
   | ["fsreset"] => ({ s with fs := [] }, [])
   | ["file", p] => ({ s with fs := s.fs ++ [(un p, [])] }, [])
